@@ -84,6 +84,9 @@ class Elem:
         elif pt == 'decimal':
             import decimal
             fam = ['0', '0.00', '1', '12.50', '99999.999', '0.5', '1E+2', '2.5E+3', '0.0000001', '1E-3']
+            if ft != 'FIXED' or w >= 31:
+                # more significant digits than the default decimal context keeps (28): the value is carried as text, nothing may round it
+                fam = fam + ['1234567890123456789012345678.9', '9' * 30, '100000000000000000000000000001']
             dv = decimal.Decimal(choose(name + '_dec', fam))
             self.value = dv
             self.expect = dv
